@@ -298,6 +298,18 @@ class Sym(Interp):
         for k, v in env.items():
             if k.startswith("$") and k != "$outer":
                 e[k] = v
+        # a comprehension over a short literal tuple / list (e.g. of functions) is the literal list of its instances
+        if len(n.generators) == 1 and not n.generators[0].ifs and kind in ("list", "gen", "set") and isinstance(n.generators[0].iter, (ast.Tuple, ast.List)) \
+                and 0 < len(n.generators[0].iter.elts) <= 8 and not any(isinstance(x, ast.Starred) for x in n.generators[0].iter.elts):
+            items = []
+            for el in n.generators[0].iter.elts:
+                ee = dict(e)
+                self.assign(n.generators[0].target, self.ev(el, ee, ctx), ee, ctx, n)
+                items.append(T(self.ev(n.elt, ee, ctx)))
+                for k_, v_ in ee.items():
+                    if k_.startswith("$") and k_ != "$outer":
+                        e[k_] = v_
+            return ("list", tuple(items))
         gens = []
         for g in n.generators:
             itv = self.ev(g.iter, e, ctx)
@@ -343,6 +355,10 @@ class Sym(Interp):
                 for nm, a in zip(names[npos:], args[npos:]):
                     kwargs[nm] = a
                 args = args[:npos]
+        if d in ("any", "all") and len(args) == 1 and not kwargs and isinstance(T(args[0]), tuple) and T(args[0])[0] in ("list", "tuple") and T(args[0])[1]:
+            t = ("bool", "or" if d == "any" else "and", tuple(T(args[0])[1]))
+            self.fact("call", ctx, n, env, target=d, args=[T(args[0])], kwargs={}, callkind="ext", result=t, rawargs=list(args))
+            return t
         impure = d in IMPURE_EXT or (d.startswith("numpy.random.") and d not in ("numpy.random.default_rng", "numpy.random.seed",
                                                                                   "numpy.random.RandomState", "numpy.random.Generator"))
         t = ("ext", d, self.argt(args), self.kwt(kwargs) + (self.draw_tag() if impure else ()))
